@@ -1777,6 +1777,30 @@ def stream_negative_delete(ctx, count, compare=True):
         compare_batch(ctx, batch)
 
 
+def stream_large_delete(ctx, count, compare=True):
+    """large structures (200-600 atoms, a few terms clustered on atoms that share terms) from which 15-40 atoms spread
+    over the whole index range are deleted, then a pop and a subset: library routines switch algorithms on such size
+    ratios; same oracle, model compared"""
+    from . import c10
+    saved = ctx.tier
+    batch = []
+    cases = c10.large_cases(ctx)[:count]
+    for aj, idx, variant in cases:
+        tg = Tagger()
+        a = retag(_deep(aj), tg)
+        n = len(a["atoms"])
+        ops = [{"k": "construct", "dst": 0, "a": a}, {"k": "delete", "slot": 0, "idx": idx, "spell": ctx.rng.choice(SPELLINGS)},
+               {"k": "pop", "slot": 0, "i": -1, "default": True},
+               {"k": "getitem", "src": 0, "dst": 1, "idx": [0, -1]}]
+        h = {"op": "hist", "init": [None] * NSLOTS, "ops": ops, "dump": "changed"}
+        out, k, what = run_history(h["init"], h["ops"])
+        account(ctx, h, out, k, what, "large-delete")
+        batch.append((h, out))
+    ctx.tier = saved
+    if compare:
+        compare_batch(ctx, batch)
+
+
 # =============================================================================================== entry points
 
 def run(ctx, oracle_only=False):
@@ -1786,6 +1810,7 @@ def run(ctx, oracle_only=False):
     stream_misaligned(ctx, ctx.n(4, 30), cmp_)
     stream_aliasing(ctx, ctx.n(30, 300), cmp_)
     stream_negative_delete(ctx, ctx.n(6, 60), cmp_)
+    stream_large_delete(ctx, ctx.n(3, 12), cmp_)
     pairs = pool_pairs(ctx, ctx.quick())
     if ctx.quick():
         stream_exhaustive(ctx, 2, pairs, limit=ctx.n(300, None), compare=cmp_)
@@ -1817,6 +1842,7 @@ def search(ctx):
     stream_misaligned(ctx, 10, False)
     stream_aliasing(ctx, 150, False)
     stream_negative_delete(ctx, 30, False)
+    stream_large_delete(ctx, 8, False)
     pairs = pool_pairs(ctx, False)
     if not _unknown_failures(ctx):
         stream_random(ctx, 600, 20, 40, False)
